@@ -423,10 +423,15 @@ def acceptsParams (reg : List EquivRec) (equivalence : Option String) (names : L
     followed by the ordinary conversion from the coherent SI unit of the new dimension.
     An input unit with an offset (°C, °F) is refused by the first multiply/divide/subtract/add
     that touches it; a chain that only ever raises the input to a power (`effective_temperature`,
-    temperature → flux) is *not* refused and works on the bare reading, offset dropped. -/
+    temperature → flux) is *not* refused and works on the bare reading, offset dropped.
+    `uSelf` is the coefficient `(u * 1).simplify().as_coeff_unit()[0]` of the input's own unit
+    expression (`≠ 1` when it contains two atoms of the same dimension, e.g. `K*cm/angstrom`;
+    it belongs to the unit algebra, so it is an input here): with `out=x`, the post-multiplication
+    `multiply(out, mul, out=out)` of `unyt_array.__array_ufunc__` re-enters itself for such a
+    unit until Python raises `RecursionError` (a `RuntimeError`), so every in-place chain fails. -/
 def convertValue [OfBits K] (pre : Prefixes K) (t : Lut K) (reg : List EquivRec)
-    (consts supplied : List (String × K)) (m : Mode) (u : UnitV K) (xv : K) (target : UnitV K)
-    (equivalence : Option String) : Except Err K :=
+    (consts supplied : List (String × K)) (m : Mode) (u : UnitV K) (uSelf : K) (xv : K)
+    (target : UnitV K) (equivalence : Option String) : Except Err K :=
   match inUnitsRoute reg m u.dim target.dim equivalence with
   | .error e => .error e
   | .ok .plain => toValue pre t u xv target
@@ -436,6 +441,7 @@ def convertValue [OfBits K] (pre : Prefixes K) (t : Lut K) (reg : List EquivRec)
       let params := effectiveParams reg equivalence supplied
       if !(f.atoms.all (bound consts params)) then .error .Other
       else if u.offset != 0 && f.xInArith then .error .InvalidUnitOperation
+      else if m == .inplace && uSelf != 1 then .error .RuntimeError
       else
         let si := xv * u.scale
         let y := f.eval (mkEnv consts params si)
